@@ -116,16 +116,6 @@ func transTablesFor(versionConsts map[string]int64) *transTables {
 			"includesVersion":                    {lean: "includesVersion", t: tBool},
 			"(Dep).satisfies":                    {lean: "satisfies", t: tBool},
 			"cmp.Compare":                        {lean: "Trans.cmpCompare", t: tInt},
-			// path vetting (C18): the lexical path functions of Model/Path.lean and Model/Confine.lean
-			"IndexURL":          {lean: "IndexSig.indexURL", t: tText},
-			"cmp.Compare/Nat":   {lean: "Trans.cmpCompareNat", t: tInt},
-			"cmp.Or":            {lean: "Trans.cmpOr", t: tInt}, // two arguments
-			"filepath.Clean":    {lean: "Path.clean", t: tText},
-			"filepath.Dir":      {lean: "Path.dir", t: tText},
-			"filepath.Join":     {lean: "Path.join2", t: tText}, // two arguments (more do not type-check in Lean)
-			"filepath.Abs":      {lean: "Trans.absOfAbsolute", t: tText, optErr: true},
-			"strings.HasPrefix": {lean: "Confine.hasPrefix", t: tBool},
-			"strings.HasSuffix": {lean: "Confine.hasSuffix", t: tBool},
 		},
 		consts: map[string]constVal{
 			"versionAny": {"Dep.any", tDep}, "versionEqual": {"Dep.eq", tDep}, "versionGreater": {"Dep.gt", tDep},
@@ -152,7 +142,8 @@ func transTablesFor(versionConsts map[string]int64) *transTables {
 type transFile struct {
 	out     string // Generated/<out>.lean
 	imports []string
-	prefix  string // problem prefix (= the fact prefix of the owning property)
+	prefix  string             // problem prefix (= the fact prefix of the owning property)
+	calls   map[string]callVal // callees whitelisted for this file only (its Lean imports define them)
 	targets []transTarget
 }
 
@@ -160,11 +151,22 @@ func transFiles() []transFile {
 	const repoGo, versionGo = "pkg/apk/apk/repo.go", "pkg/apk/apk/version.go"
 	const commonGo, rwosfsGo, cacheGo = "pkg/apk/apk/common.go", "pkg/apk/fs/rwosfs.go", "pkg/apk/apk/cache.go"
 	within := func(n string) map[string]callVal { return map[string]callVal{"isWithin": {lean: n, t: tBool}} }
+	// path vetting (C18): the lexical path functions of Model/Path.lean and Model/Confine.lean
+	indexCalls := map[string]callVal{"IndexURL": {lean: "IndexSig.indexURL", t: tText}}
+	layerCalls := map[string]callVal{"cmp.Compare/Nat": {lean: "Trans.cmpCompareNat", t: tInt}, "cmp.Or": {lean: "Trans.cmpOr", t: tInt}} // cmp.Or: two arguments
+	pathCalls := map[string]callVal{
+		"filepath.Clean":    {lean: "Path.clean", t: tText},
+		"filepath.Dir":      {lean: "Path.dir", t: tText},
+		"filepath.Join":     {lean: "Path.join2", t: tText}, // two arguments (more do not type-check in Lean)
+		"filepath.Abs":      {lean: "Trans.absOfAbsolute", t: tText, optErr: true},
+		"strings.HasPrefix": {lean: "Confine.hasPrefix", t: tBool},
+		"strings.HasSuffix": {lean: "Confine.hasSuffix", t: tBool},
+	}
 	return []transFile{
-		{out: "TransIndexSig", imports: []string{"Apko.Model.IndexSig", "Apko.Model.TransPrelude"}, prefix: "index.go", targets: []transTarget{
+		{out: "TransIndexSig", imports: []string{"Apko.Model.IndexSig", "Apko.Model.TransPrelude"}, prefix: "index.go", calls: indexCalls, targets: []transTarget{
 			{file: "pkg/apk/apk/index.go", fn: "shouldCheckSignatureForIndex", lean: "shouldCheckSignatureForIndex"},
 		}},
-		{out: "TransLayers", imports: []string{"Apko.Model.Layers", "Apko.Model.TransPrelude"}, prefix: "layers.go", targets: []transTarget{
+		{out: "TransLayers", imports: []string{"Apko.Model.Layers", "Apko.Model.TransPrelude"}, prefix: "layers.go", calls: layerCalls, targets: []transTarget{
 			// the two comparators handed to slices.SortFunc at the end of groupByOriginAndSize
 			{file: "pkg/build/layers.go", fn: "groupByOriginAndSize", lean: "groupCmp", lit: 1},
 			{file: "pkg/build/layers.go", fn: "groupByOriginAndSize", lean: "pkgCmp", lit: 2},
@@ -173,7 +175,7 @@ func transFiles() []transFile {
 			{file: "pkg/build/accounts.go", fn: "userToUserEntry", lean: "userToUserEntry"},
 			{file: "pkg/build/accounts.go", fn: "appendGroup", lean: "appendGroup"},
 		}},
-		{out: "TransConfine", imports: []string{"Apko.Model.Confine", "Apko.Model.TransPrelude"}, prefix: "common.go", targets: []transTarget{
+		{out: "TransConfine", imports: []string{"Apko.Model.Confine", "Apko.Model.TransPrelude"}, prefix: "common.go", calls: pathCalls, targets: []transTarget{
 			{file: commonGo, fn: "isWithin", lean: "isWithinApk"},
 			{file: commonGo, fn: "sanitizeArchivePath", lean: "sanitizeArchivePath", calls: within("isWithinApk")},
 			{file: rwosfsGo, fn: "isWithin", lean: "isWithinFs"},
@@ -218,6 +220,16 @@ func genTrans() {
 				problem("%s: trans %s: function not found", tf.prefix, tg.fn)
 				fmt.Fprintf(&b, "-- %s: function not found\n\n", tg.fn)
 				continue
+			}
+			if len(tf.calls) > 0 {
+				merged := map[string]callVal{}
+				for k, v := range tf.calls {
+					merged[k] = v
+				}
+				for k, v := range tg.calls {
+					merged[k] = v
+				}
+				tg.calls = merged
 			}
 			text, probs := translateFunc(f, fd, tg, tab)
 			for _, p := range probs {
